@@ -541,6 +541,34 @@ def run(tier, seed, replay):
             ndis += 1
             if first is None:
                 first = {"case": c, "model": m, "impl": vals}
+    # pickled objects (what worker processes receive) with sampled coefficients on grids that are uniform only within the
+    # tolerance of the uniformity detection - linspace with a non-zero start, a slowly drifting clock, float32 time stamps:
+    # the unpickled object is the same function, at the samples, next to them and in between
+    try:
+        import qutip
+        grids = {"linspace-from-0.3": np.linspace(0.3, 2.1, 19), "linspace-negative-start": np.linspace(-1.7, 0.9, 27),
+                 "drifting": np.cumsum(np.concatenate([[0.11], 0.1 * (1 + 3e-6 * np.arange(30))])),
+                 "float32-stamps": np.linspace(0.1, 3.1, 31).astype(np.float32).astype(float)}
+        for gname, tg in grids.items():
+            sg = (np.arange(len(tg)) % 5 - 2) + 1j * (np.arange(len(tg)) % 3)
+            for order_ in (0, 1, 3):
+                Qg = qutip.QobjEvo([qutip.sigmaz(), [qutip.sigmax(), qutip.coefficient(sg, tlist=tg, order=order_)]])
+                Qp = pickle.loads(pickle.dumps(Qg))
+                Qs = pickle.loads(pickle.dumps(Qg + Qg.dag() * 0.5))
+                rep.evaluations += 1
+                rep.count("pickled-sampled-coefficient")
+                qs_ = np.concatenate([tg, np.nextafter(tg, -np.inf), np.nextafter(tg, np.inf), (tg[:-1] + tg[1:]) / 2])
+                for q_ in qs_:
+                    a_, b_ = Qg(float(q_)).full(), Qp(float(q_)).full()
+                    c_, d_ = (Qg + Qg.dag() * 0.5)(float(q_)).full(), Qs(float(q_)).full()
+                    if np.abs(a_ - b_).max() > 0 or np.abs(c_ - d_).max() > 0:
+                        rep.violation(core.Violation(f"C05:pickle-sampled:{gname}:order{order_}", f"a pickled QobjEvo with an order {order_} sampled coefficient on the grid '{gname}' differs from the original at t={float(q_)!r} by {max(np.abs(a_ - b_).max(), np.abs(c_ - d_).max()):.2e}",
+                                                     {"grid": tg.tolist(), "order": order_, "t": float(q_)}))
+                        break
+    except core.CaseTimeout:
+        raise
+    except Exception as e:
+        rep.violation(core.Violation("C05:pickle-sampled-raises", f"{type(e).__name__}: {e}"[:300], {}))
     rep.notes["correspondence_disagreements"] = ndis
     if ndis:
         rep.broken.append({"kind": "correspondence", "which": "C05.tree", "count": ndis, "first": first})
